@@ -144,7 +144,7 @@ func runC03(c *Ctx) {
 	prefixes := smallPrefixes()
 	sets := keySets(keys, maxSet)
 	c.R.Exhaustive = true
-	c.R.Rule = fmt.Sprintf("exhaustive: all %d key sets of size ≤ %d over the %d keys in {a,b,/}^≤3 (not starting/ending with '/'), each reached by a put/delete history from the previous set, × all %d prefixes in {a,b,/}^≤3 not starting with '/' × delimiter {none,'/'} (+'a' on mem/bolt) × {V1,V2}; plus %d random listings over richer keys (UTF-8, '-', '.', spaces, '//' on key-value backends); fs backends: key sets without file/directory conflicts; every listing is compared with the Lean model and with Spec.Listing over the reference store; non-trivial = distinct (backend, key set, prefix, delimiter) whose specified listing is non-empty", len(sets), maxSet, len(keys), len(prefixes), nRand)
+	c.R.Rule = fmt.Sprintf("exhaustive: all %d key sets of size ≤ %d over the %d keys in {a,b,/}^≤3 (not starting/ending with '/'), each reached by a put/delete history from the previous set, × all %d prefixes in {a,b,/}^≤3 not starting with '/' × delimiter {none,'/'} (+'a' on mem/bolt) × {V1,V2}; plus a fixed four-level key tree listed under every prefix at every depth, and %d random listings over richer keys (UTF-8, '-', '.', spaces, '//' on key-value backends); fs backends: key sets without file/directory conflicts; every listing is compared with the Lean model and with Spec.Listing over the reference store; non-trivial = distinct (backend, key set, prefix, delimiter) whose specified listing is non-empty", len(sets), maxSet, len(keys), len(prefixes), nRand)
 	for _, kind := range c.kinds(impl.AllKinds) {
 		inst, err := impl.New(kind, c.Tmp)
 		if err != nil {
@@ -240,6 +240,23 @@ func runC03(c *Ctx) {
 					continue
 				}
 				doList(set, pf, d, c.Rng.Intn(2) == 0, "c03:list-rich:"+fsClass(inst, pf, d))
+			}
+		}
+		if ok {
+			// a fixed deep tree: every prefix at every depth, with and without delimiter, V1 and V2
+			deep := []string{"a/b/c", "a/d", "a/e/f/g", "top", "x/y/z/w", "x/y2"}
+			if moveTo(c, r, bucket, cur, deep, "c03:history") {
+				for _, pf := range []string{"", "a", "a/", "a/b", "a/e/", "a/e/f", "a/e/f/", "x/y", "x/y/", "x/y/z/", "t", "a/e/f/g"} {
+					for _, d := range delims {
+						if d != "" && d != "/" {
+							continue
+						}
+						doList(deep, pf, d, false, "c03:list-deep:"+fsClass(inst, pf, d))
+						doList(deep, pf, d, true, "c03:list-deep:"+fsClass(inst, pf, d))
+					}
+				}
+			} else {
+				ok = false
 			}
 		}
 		if ok && kind == "mem" {
